@@ -66,3 +66,14 @@ package keeper
 //@   before[C17.atv.shared] AllocateTokensToStakers requires dcv(arg_rewardToAllStakers) == dcv(tokens) - dcv(res_MulDec_0) && arg_feePool == feePool
 //@   ensures[C17.atv.sum] dcv(feePool.CommunityPool) - old(dcv(feePool.CommunityPool)) + (ghost(staked) - old(ghost(staked))) == dcv(tokens) - dcv(res_MulDec_0) ||
 //@        (dcv(feePool.CommunityPool) == old(dcv(feePool.CommunityPool)) && ghost(staked) == old(ghost(staked)))
+
+// C17 (operator commissions add up over the epochs): the accumulated commission of a validator is read and written
+// under one and the same key - the one GetValidatorAccumulatedCommissionKey builds for that validator.
+//@ func (Keeper).GetValidatorAccumulatedCommission
+//@   flag pure=GetValidatorAccumulatedCommissionKey
+//@   before[C17.gvac.key] KVStore.Get requires defined(res_GetValidatorAccumulatedCommissionKey_0) && arg0 == res_GetValidatorAccumulatedCommissionKey_0
+//@   ensures[C17.gvac.read] state(ctx) == old(state(ctx))
+//@ func (Keeper).SetValidatorAccumulatedCommission
+//@   flag pure=GetValidatorAccumulatedCommissionKey
+//@   flag noframe
+//@   before[C17.svac.key] KVStore.Set requires defined(res_GetValidatorAccumulatedCommissionKey_0) && arg0 == res_GetValidatorAccumulatedCommissionKey_0
